@@ -302,6 +302,7 @@ class ProbeMarketMixin:
         if self.time >= 0:
             self._sync_running()
         mp_before = self.get_market_price() if self.time >= 0 else None
+        p0_before = self.get_market_price(0) if self.time >= 0 else None
         try:
             log = super()._add_order(order)
         except Exception as ex:  # noqa: BLE001
@@ -323,7 +324,7 @@ class ProbeMarketMixin:
         REC.emit("acc", m=self.market_id, id=int(order.order_id), a=int(order.agent_id), obj=obj, buy=bool(order.is_buy),
                  mo=mo, px=px, vol=int(order.volume), ttl=int(order.ttl or 0), t=int(order.placed_at), req=rq,
                  tm=int(self.time), run=bool(self.is_running),
-                 mp=REC.fine(self.market_id, mp_before), p0=REC.fine(self.market_id, self.get_market_price(0)),
+                 mp=REC.fine(self.market_id, mp_before), p0=REC.fine(self.market_id, p0_before),
                  rqf=-1 if (mo or req is None) else REC.fine(self.market_id, req),
                  lf=[int(log.time), int(log.agent_id), bool(log.is_buy), log.kind == MARKET_ORDER, _soft(u.u, log.price),
                      int(log.volume), int(log.ttl or 0)])
@@ -361,7 +362,8 @@ class ProbeMarketMixin:
             raise
         fills = [[int(g.buy_order_id), int(g.sell_order_id), _soft(u.u, g.price), int(g.volume),
                   int(g.buy_agent_id), int(g.sell_agent_id), int(g.time), int(g.market_id)] for g in logs]
-        REC.emit("round", m=self.market_id, t=int(self.time), raised="", fills=fills, run=bool(self.is_running))
+        REC.emit("round", m=self.market_id, t=int(self.time), raised="", fills=fills, run=bool(self.is_running),
+                 p0=REC.fine(self.market_id, self.get_market_price(0)))
         self._bev({"k": "match", "raised": "", "fills": [f[:4] for f in fills]})
         return logs
 
